@@ -83,7 +83,7 @@ def headers_for(sc, alg):
     return None, base
 
 
-def one(sc, alg, kind, payload: bytes, with_ref: bool):
+def _one_impl(sc, alg, kind, payload: bytes, with_ref: bool):
     """-> list of (what, detail)"""
     from joserfc import jws, rfc7797
     fails = []
@@ -269,6 +269,17 @@ def execute(ctx: Ctx, with_ref: bool, prop_filter=None) -> None:
     ctx.notes.update(abstract_scenarios=len(scs), ecdsa_signatures_with_leading_zero_r_or_s=lzs, payloads_per_class=k)
     ctx.sample(scs[3]); ctx.sample(scs[600]); ctx.sample(scs[1100])
 
+
+
+def one(sc, alg, kind, payload: bytes, with_ref: bool):
+    from .common import from_library
+    try:
+        return _one_impl(sc, alg, kind, payload, with_ref)
+    except Exception as e:  # noqa
+        where = from_library(e)
+        if where is None:
+            raise
+        return [("library-raised:" + where.split("@")[0], where)]
 
 def run(ctx: Ctx) -> None:
     execute(ctx, with_ref=False, prop_filter=lambda w: not w.startswith("ref-"))
